@@ -635,6 +635,30 @@ def m_iter_collect(I, c, it):
         return StringBuf(out)
     if h == 'Vec':
         return VecVal(xs)
+    if h in ('Result', 'Option') and target[2] and head(target[2][0]) in ('Vec', 'String', 'SmartString'):
+        # FromIterator for Result<C, E> / Option<C>: stop at the first Err / None
+        good = []
+        for x in xs:
+            if x.variant in ('Err', 'None'):
+                return x
+            good.append(x.fields[0])
+        inner = VecVal(good) if head(target[2][0]) == 'Vec' else None
+        if inner is None:
+            out = []
+            for ch in good:
+                out.extend(sbytes(ch) if isinstance(ch, (RStr, StringBuf)) else encode_char(I, ch))
+            inner = StringBuf(out)
+        return Ok(inner) if h == 'Result' else Some(inner)
+    if h == 'HashMap':
+        mp = MapVal()
+        for x in xs:
+            k, v = x.fields
+            i = map_find(I, mp, k)
+            if i is None:
+                mp.entries.append([k, v])
+            else:
+                mp.entries[i][1] = v
+        return mp
     raise Unsupported('collect into %s' % (show(target) if target else '?'))
 
 
@@ -2969,9 +2993,44 @@ def m_slice_get(I, c, r, i):
     return Some(Ref(v.items, i)) if i < len(v.items) else NONE_()
 
 
-@model('Vec::dedup_by_key', 'Vec::dedup')
-def m_vec_dedup(I, c, r, *f):
-    raise Unsupported('Vec::dedup')
+@model('Vec::dedup')
+def m_vec_dedup(I, c, r):
+    v = vec_of(r)
+    et = elem_types(c.self_ty)
+    out = []
+    for x in v.items:
+        if out and I.ctx.decide(I.trait_call('PartialEq', 'eq', et, [Ref([x], 0), Ref(out, len(out) - 1)])):
+            continue
+        out.append(x)
+    v.items[:] = out
+    return UNIT()
+
+
+@model('Vec::dedup_by_key')
+def m_vec_dedup_by_key(I, c, r, f):
+    v = vec_of(r)
+    kt = c.margs[1] if len(c.margs) > 1 else (c.margs[0] if c.margs else None)
+    out, prev = [], None
+    for i, x in enumerate(v.items):
+        k = I.call_value(f, [Ref(v.items, i)])
+        if out and I.ctx.decide(I.trait_call('PartialEq', 'eq', kt, [Ref([k], 0), Ref([prev], 0)])):
+            continue
+        out.append(x)
+        prev = k
+    v.items[:] = out
+    return UNIT()
+
+
+@model('Vec::dedup_by')
+def m_vec_dedup_by(I, c, r, f):
+    v = vec_of(r)
+    out = []
+    for x in v.items:
+        if out and I.ctx.decide(I.call_value(f, [Ref([x], 0), Ref(out, len(out) - 1)])):
+            continue
+        out.append(x)
+    v.items[:] = out
+    return UNIT()
 
 
 @model('Vec::swap_remove')
@@ -3143,3 +3202,376 @@ def m_de_error_custom(I, c, msg):
     if t is not None:
         I.trait_call('Display', 'fmt', t, [Ref([msg], 0), Ref([f], 0)])
     return DeError(bytes(x for x in f.out if isinstance(x, int)).decode('utf8', 'replace'))
+
+
+# =========================================================================================
+# pattern-generic str methods (char | &str | &[char] | closure) and a few more containers
+
+
+def _pat_matcher(I, pat):
+    """-> ('char', f(byte_list, i) -> match length or 0) for the Pattern forms the engine supports"""
+    p = deref_all(pat)
+    if isinstance(p, int):
+        _ascii_pat(p)
+        return lambda b, i: 1 if beq(I, b[i], p) else 0
+    if isinstance(p, VecVal):
+        tab = sum(1 << _ascii_pat(q) for q in set(p.items))
+        return lambda b, i: 1 if in_set(I, b[i], tab) else 0
+    if isinstance(p, (RStr, StringBuf)):
+        pb = list(sbytes(p))
+        if not pb:
+            raise Unsupported('empty string pattern')
+        return lambda b, i: len(pb) if i + len(pb) <= len(b) and str_eq(I, b[i:i + len(pb)], pb) else 0
+    if isinstance(p, (Closure, FnItem)) or callable(p):
+        def f(b, i):
+            ch, w = decode_char(I, b, i)
+            return w if I.ctx.decide(I.call_value(p, [ch])) else 0
+        return f
+    raise Unsupported('pattern %r' % (p,))
+
+
+def _split_generic(I, s, pat):
+    b = sbytes(s)
+    m = _pat_matcher(I, pat)
+    out, cur, i = [], [], 0
+    while i < len(b):
+        k = m(b, i)
+        if k:
+            out.append(RStr(cur))
+            cur = []
+            i += k
+        else:
+            _, w = decode_char(I, b, i)
+            cur.extend(b[i:i + w])
+            i += w
+    out.append(RStr(cur))
+    return out
+
+
+_old_split = MODELS['str::split']
+
+
+@model('str::split')
+def m_split_any(I, c, s, pat):
+    if isinstance(deref_all(pat), int):
+        return _old_split(I, c, s, pat)
+    return ListIt(_split_generic(I, s, pat))
+
+
+_old_contains = MODELS['str::contains']
+
+
+@model('str::contains')
+def m_contains_any(I, c, s, pat):
+    p = deref_all(pat)
+    if isinstance(p, (int, VecVal)):
+        return _old_contains(I, c, s, pat)
+    b = sbytes(s)
+    m = _pat_matcher(I, pat)
+    i = 0
+    while i < len(b):
+        if m(b, i):
+            return True
+        _, w = decode_char(I, b, i)
+        i += w
+    return False
+
+
+_old_split_once = MODELS['str::split_once']
+_old_rsplit_once = MODELS['str::rsplit_once']
+
+
+@model('str::split_once')
+def m_split_once_any(I, c, s, pat):
+    if isinstance(deref_all(pat), int):
+        return _old_split_once(I, c, s, pat)
+    b = sbytes(s)
+    m = _pat_matcher(I, pat)
+    i = 0
+    while i < len(b):
+        k = m(b, i)
+        if k:
+            return Some(Tup(RStr(b[:i]), RStr(b[i + k:])))
+        _, w = decode_char(I, b, i)
+        i += w
+    return NONE_()
+
+
+@model('str::rsplit_once')
+def m_rsplit_once_any(I, c, s, pat):
+    if isinstance(deref_all(pat), int):
+        return _old_rsplit_once(I, c, s, pat)
+    b = sbytes(s)
+    m = _pat_matcher(I, pat)
+    starts, i = [], 0
+    while i < len(b):
+        starts.append(i)
+        _, w = decode_char(I, b, i)
+        i += w
+    for i in reversed(starts):
+        k = m(b, i)
+        if k:
+            return Some(Tup(RStr(b[:i]), RStr(b[i + k:])))
+    return NONE_()
+
+
+_old_trim_matches = MODELS['str::trim_matches']
+_old_trim_start_matches = MODELS['str::trim_start_matches']
+
+
+@model('str::trim_matches', 'str::trim_start_matches', 'str::trim_end_matches')
+def m_trim_matches_any(I, c, s, pat):
+    p = deref_all(pat)
+    b = list(sbytes(s))
+    if isinstance(p, int):
+        _ascii_pat(p)
+        if c.method != 'trim_end_matches':
+            while b and beq(I, b[0], p):
+                b.pop(0)
+        if c.method != 'trim_start_matches':
+            while b and beq(I, b[-1], p):
+                b.pop()
+        return RStr(b)
+    if isinstance(p, VecVal):
+        tab = sum(1 << _ascii_pat(q) for q in set(p.items))
+        if c.method != 'trim_end_matches':
+            while b and in_set(I, b[0], tab):
+                b.pop(0)
+        if c.method != 'trim_start_matches':
+            while b and in_set(I, b[-1], tab):
+                b.pop()
+        return RStr(b)
+    raise Unsupported('trim_matches with pattern %r' % (p,))
+
+
+@model('str::matches', 'str::match_indices', 'str::rmatch_indices', 'str::rmatches')
+def m_matches(I, c, s, pat):
+    b = sbytes(s)
+    m = _pat_matcher(I, pat)
+    out, i = [], 0
+    while i < len(b):
+        k = m(b, i)
+        if k:
+            out.append(Tup(i, RStr(b[i:i + k])) if 'indices' in c.method else RStr(b[i:i + k]))
+            i += k
+        else:
+            _, w = decode_char(I, b, i)
+            i += w
+    return ListIt(out[::-1] if c.method.startswith('r') else out)
+
+
+def _chars_next_back(self, I):
+    if self.i >= len(self.b):
+        return STOP
+    j = len(self.b) - 1
+    while j > self.i and in_range(I, self.b[j], 0x80, 0xBF):
+        j -= 1
+    ch, w = decode_char(I, self.b, j)
+    self.b = self.b[:j]
+    return ch
+
+
+CharsIt.next_back = _chars_next_back
+
+
+class PeekIt(It):
+    def __init__(self, inner):
+        self.inner, self.buf = inner, None
+
+    def next(self, I):
+        if self.buf is not None:
+            v, self.buf = self.buf, None
+            return v[0]
+        return self.inner.next(I)
+
+    def peek(self, I):
+        if self.buf is None:
+            self.buf = (self.inner.next(I),)
+        return self.buf[0]
+
+
+@model('Iterator::peekable')
+def m_peekable(I, c, it):
+    return PeekIt(as_iter(I, it))
+
+
+@model('Peekable::peek', 'Peekable::peek_mut')
+def m_peek(I, c, r):
+    it = deref_all(r)
+    v = it.peek(I)
+    if v is STOP:
+        return NONE_()
+    return Some(Ref([v], 0))
+
+
+@model('Peekable::next_if')
+def m_next_if(I, c, r, f):
+    it = deref_all(r)
+    v = it.peek(I)
+    if v is STOP:
+        return NONE_()
+    if I.ctx.decide(I.call_value(f, [Ref([v], 0)])):
+        it.buf = None
+        return Some(v)
+    return NONE_()
+
+
+@model('Peekable::next_if_eq')
+def m_next_if_eq(I, c, r, x):
+    it = deref_all(r)
+    v = it.peek(I)
+    if v is STOP:
+        return NONE_()
+    if I.ctx.decide(zx(v) == zx(deref_all(x))):
+        it.buf = None
+        return Some(v)
+    return NONE_()
+
+
+@model('Cow::to_mut')
+def m_cow_to_mut(I, c, r):
+    cow = deref_all(r)
+    if cow.variant == 'Borrowed':
+        cow.variant = 'Owned'
+        cow.fields[0] = StringBuf(sbytes(cow.fields[0]))
+    return Ref(cow.fields, 0)
+
+
+@model('Cow::is_borrowed')
+def m_cow_is_borrowed(I, c, r):
+    return deref_all(r).variant == 'Borrowed'
+
+
+@model('Cow::is_owned')
+def m_cow_is_owned(I, c, r):
+    return deref_all(r).variant == 'Owned'
+
+
+@model('slice::sort_unstable_by_key', 'slice::sort_by_key', 'slice::sort_by_cached_key')
+def m_sort_by_key2(I, c, sl, f):
+    v = vec_of(sl).items
+    kt = c.margs[0] if c.margs else None
+    if kt is None:
+        raise Unsupported('sort_by_key without key type')
+    keys = [I.call_value(f, [Ref(v, i)]) for i in range(len(v))]
+    idx = list(range(len(v)))
+    for i in range(1, len(idx)):
+        j = i
+        while j > 0 and I.trait_call('Ord', 'cmp', kt, [Ref(keys, idx[j - 1]), Ref(keys, idx[j])]).variant == 'Greater':
+            idx[j - 1], idx[j] = idx[j], idx[j - 1]
+            j -= 1
+    v[:] = [v[i] for i in idx]
+    return UNIT()
+
+
+@model('slice::binary_search_by_key')
+def m_bsearch_key2(I, c, sl, key, f):
+    v = vec_of(sl).items
+    kt = c.margs[0] if c.margs else None
+    lo, hi = 0, len(v)
+    while lo < hi:
+        mid = lo + (hi - lo) // 2
+        k = I.call_value(f, [Ref(v, mid)])
+        o = I.trait_call('Ord', 'cmp', kt, [Ref([k], 0), key]).variant
+        if o == 'Equal':
+            return Ok(mid)
+        if o == 'Less':
+            lo = mid + 1
+        else:
+            hi = mid
+    return Err(lo)
+
+
+@model('slice::binary_search')
+def m_bsearch_plain(I, c, sl, key):
+    v = vec_of(sl).items
+    et = elem_types(c.self_ty)
+    lo, hi = 0, len(v)
+    while lo < hi:
+        mid = lo + (hi - lo) // 2
+        o = I.trait_call('Ord', 'cmp', et, [Ref(v, mid), key]).variant
+        if o == 'Equal':
+            return Ok(mid)
+        if o == 'Less':
+            lo = mid + 1
+        else:
+            hi = mid
+    return Err(lo)
+
+
+@model('Vec::drain')
+def m_vec_drain(I, c, r, rng_):
+    v = vec_of(r)
+    lo, hi = _range_of(rng_, len(v.items))
+    out = v.items[lo:hi]
+    del v.items[lo:hi]
+    return ListIt(out)
+
+
+@model('Vec::append')
+def m_vec_append(I, c, r, other):
+    v, o = vec_of(r), vec_of(other)
+    v.items.extend(o.items)
+    del o.items[:]
+    return UNIT()
+
+
+@model('Vec::split_off')
+def m_vec_split_off(I, c, r, at):
+    v = vec_of(r)
+    out = VecVal(v.items[at:])
+    del v.items[at:]
+    return out
+
+
+@model('Option::get_or_insert_with')
+def m_get_or_insert_with(I, c, r, f):
+    o = r.get()
+    if o.variant == 'None':
+        o = Some(I.call_value(f, []))
+        r.set(o)
+    return Ref(o.fields, 0)
+
+
+@model('Option::insert', 'Option::replace')
+def m_opt_insert(I, c, r, v):
+    old = r.get()
+    o = Some(v)
+    r.set(o)
+    return Ref(o.fields, 0) if c.method == 'insert' else old
+
+
+@model('Range::contains', 'RangeInclusive::contains', 'RangeFrom::contains', 'RangeTo::contains', 'RangeToInclusive::contains')
+def m_range_contains(I, c, r, x):
+    rv = deref_all(r)
+    v = deref_all(x)
+    f = rv.fields
+    if rv.ty == 'Range':
+        lo, hi, incl = f[0], f[1], False
+    elif rv.ty == 'RangeInclusive':
+        lo, hi, incl = f[0], f[1], True
+    elif rv.ty == 'RangeFrom':
+        lo, hi, incl = f[0], None, True
+    elif rv.ty == 'RangeTo':
+        lo, hi, incl = None, f[0], False
+    else:
+        lo, hi, incl = None, f[0], True
+    def ge(a, b):
+        return a >= b if isinstance(a, int) and isinstance(b, int) else z3.UGE(a if not isinstance(a, int) else z3.BitVecVal(a, b.size()), b if not isinstance(b, int) else z3.BitVecVal(b, a.size()))
+    def lt(a, b, incl_):
+        if isinstance(a, int) and isinstance(b, int):
+            return a <= b if incl_ else a < b
+        A = a if not isinstance(a, int) else z3.BitVecVal(a, b.size())
+        B = b if not isinstance(b, int) else z3.BitVecVal(b, a.size())
+        return z3.ULE(A, B) if incl_ else z3.ULT(A, B)
+    terms = []
+    if lo is not None:
+        terms.append(ge(v, lo))
+    if hi is not None:
+        terms.append(lt(v, hi, incl))
+    return b_and(*terms)
+
+
+@model('RangeInclusive::new')
+def m_range_incl_new(I, c, a, b):
+    return Adt('RangeInclusive', None, [a, b])
